@@ -35,18 +35,20 @@ RULES = [
 
 
 def candidates(path, lines=None):
-    src = open(path).read().split('\n')
+    text = open(path).read()
+    src = text.split('\n')
     out = []
-    in_doc = False
+    # lines covered by docstrings / bare string statements / multi-line strings are not code
+    import ast
+    skip = set()
+    for node in ast.walk(ast.parse(text)):
+        if isinstance(node, ast.Expr) and isinstance(node.value, ast.Constant) and isinstance(node.value.value, str):
+            skip.update(range(node.lineno, node.end_lineno + 1))
+        elif isinstance(node, ast.Constant) and isinstance(node.value, str) and node.end_lineno > node.lineno:
+            skip.update(range(node.lineno, node.end_lineno + 1))
     for i, ln in enumerate(src):
         st = ln.strip()
-        q = st.count('"""') + st.count("'''")
-        if in_doc:
-            if q % 2:
-                in_doc = False
-            continue
-        if q % 2:
-            in_doc = True
+        if (i + 1) in skip:
             continue
         if lines and not (lines[0] <= i + 1 <= lines[1]):
             continue
